@@ -364,6 +364,50 @@ def r05_8(chk):
     chk.floor("R05.8", 1, "constructor")
 
 
+def r05_9(chk):
+    chk.rule("R05.9", "word probabilities are a distribution over the model's words: every calc_word_probs that forms them as products of monomer probabilities (numpy.prod) divides the products by their sum before returning -- the tuple alphabet can be a proper subset of all words (sense codons, user-given motifs), so the raw products sum to less than one and Q would no longer be scaled to one expected substitution at the model's motif probabilities")
+    m = chk.repo.module("evolve/motif_prob_model.py")
+    n = 0
+    for cname, ci in sorted(m.classes.items()):
+        fn = ci.methods.get("calc_word_probs")
+        if not isinstance(fn, ast.FunctionDef):
+            continue
+        prods = [c for c in walk_no_nested(fn) if isinstance(c, ast.Call) and (call_name(c) or "").split(".")[-1] == "prod"]
+        if not prods:
+            continue
+        n += 1
+        rets = [r for r in walk_no_nested(fn) if isinstance(r, ast.Return) and r.value is not None]
+        normalised = set()
+        for st in walk_no_nested(fn):
+            if isinstance(st, ast.AugAssign) and isinstance(st.op, ast.Div) and isinstance(st.target, ast.Name) and norm(st.value) in (f"{st.target.id}.sum()", f"numpy.sum({st.target.id})", f"sum({st.target.id})"):
+                normalised.add(st.target.id)
+            if isinstance(st, ast.Assign) and isinstance(st.value, ast.BinOp) and isinstance(st.value.op, ast.Div) and ".sum()" in norm(st.value.right) and isinstance(st.targets[0], ast.Name):
+                normalised.add(st.targets[0].id)
+        okr = bool(rets) and all((isinstance(r.value, ast.Name) and r.value.id in normalised) or (isinstance(r.value, ast.BinOp) and isinstance(r.value.op, ast.Div) and "sum" in norm(r.value.right)) for r in rets)
+        chk.decide(okr, "R05.9", key(m, f"{cname}.calc_word_probs", "products renormalised"), m.loc(rets[0] if rets else fn), "returned value was divided by its sum", f"{cname}.calc_word_probs returns `{norm(rets[0].value)[:60] if rets else ''}` without dividing the products by their sum: for a codon model with per-position nucleotide frequencies the word probabilities sum to 0.93 and a branch of length 0.3 carries 0.32 expected substitutions")
+    chk.floor("R05.9", 2, "MonomerProbModel and PosnSpecificMonomerProbModel")
+
+
+def r05_10(chk):
+    chk.rule("R05.10", "a model is reversible only if EVERY rate parameter multiplies a symmetric set of exchanges: Parametric.__init__ tests each predicate's own mask with _isSymmetrical and clears the flag if any one fails -- the parameters vary independently, so two one-directional predicates whose masks merely add up to a symmetric coverage (A>G and G>A) do not satisfy detailed balance")
+    m = chk.repo.module("evolve/substitution_model.py")
+    q = "Parametric.__init__"
+    fn = m.func(q)
+    loops = [lp for lp in walk_no_nested(fn) if isinstance(lp, ast.For) and "predicate" in norm(lp.iter)]
+    ok_ = False
+    where = fn
+    for lp in loops:
+        masks = {st.targets[0].id for st in ast.walk(lp) if isinstance(st, ast.Assign) and isinstance(st.targets[0], ast.Name) and isinstance(st.value, ast.Subscript) and "predicate_masks" in norm(st.value.value)}
+        for c in ast.walk(lp):
+            if isinstance(c, ast.Call) and (call_name(c) or "") == "_isSymmetrical" and c.args and ((isinstance(c.args[0], ast.Name) and c.args[0].id in masks) or "predicate_masks[" in norm(c.args[0])):
+                clears = any(isinstance(st, ast.Assign) and norm(st.targets[0]) == "self.symmetric" and isinstance(st.value, ast.Constant) and st.value.value is False for st in ast.walk(lp)) or any(isinstance(st, ast.Assign) and norm(st.targets[0]) == "self.symmetric" and any(x is c for x in ast.walk(st.value)) for st in ast.walk(lp))
+                if clears:
+                    ok_ = True
+                    where = c
+    chk.decide(ok_, "R05.10", key(m, q, "each predicate mask tested for symmetry"), m.loc(where), "_isSymmetrical(mask) inside the loop over the predicates clears self.symmetric", "no per-predicate symmetry test: a set of predicates whose masks only add up to a symmetric coverage is accepted as time reversible (MotifChange('A','G',forward_only=True) + MotifChange('G','A',forward_only=True) with different values break detailed balance)")
+    chk.floor("R05.10", 1, "Parametric.__init__")
+
+
 def r05_6(chk):
     chk.rule("R05.6", "GeneralStationary keeps pi stationary by construction: each last-in-column rate is SOLVED from the balance equation (row_total - col_total) / pi_i and used as solved -- it may be replaced by its absolute value only when it is numerically zero (allclose), and a negative solution means the free rates admit no stationary process at this pi, which is refused with ParameterOutOfBoundsError; clamping it (max(..., 0), clip, unconditional abs) returns a Q for which pi Q != 0 while the model still declares itself stationary")
     m = chk.repo.module("evolve/ns_substitution_model.py")
@@ -390,6 +434,8 @@ def r05_6(chk):
 
 
 def run(chk):
+    r05_10(chk)
+    r05_9(chk)
     r05_8(chk)
     r05_7(chk)
     r05_6(chk)
